@@ -40,15 +40,43 @@ pub trait Rule: RuleClone + Debug + Send {
             ("", "")
         };
         let (kind, expression) = self.unmake();
-        let rendered = escaper.escaped_printable(&expression);
-        if kind == "equal" {
-            if escaper.has_unprintable(&expression) {
-                format!("{rendered} (escaped{quantifier})")
-            } else {
-                format!("{rendered}{equal_quantifier}")
+        let verbatim = String::from_utf8_lossy(&expression).to_string();
+        match kind.as_str() {
+            // the text itself - or its escaped form, if it is not printable or
+            // would be read as something else than this text
+            "equal" => {
+                let rendered = escaper.escaped_expectation(&expression);
+                if rendered == verbatim {
+                    format!("{rendered}{equal_quantifier}")
+                } else {
+                    format!(
+                        "{} (escaped{quantifier})",
+                        escaper.escaped_expression(&expression)
+                    )
+                }
             }
-        } else {
-            format!("{rendered} ({kind}{quantifier})")
+            // the expression is the resolved byte sequence
+            "escaped" => format!(
+                "{} (escaped{quantifier})",
+                escaper.escaped_expression(&expression)
+            ),
+            // a glob that contains non-printable characters, or that ends in what
+            // would be read as the escaped marker, needs the escaped glob form
+            "glob"
+                if escaper.has_unprintable(&expression)
+                    || verbatim.ends_with(" (escaped)")
+                    || verbatim.ends_with(" (esc)")
+                    || verbatim.ends_with(" \\(escaped\\)")
+                    || verbatim.ends_with(" \\(esc\\)") =>
+            {
+                format!(
+                    "{} (escaped) (glob{quantifier})",
+                    escaper.escaped_expression(&expression)
+                )
+            }
+            // all other kinds do not resolve escape sequences: the expression
+            // goes out as it was written
+            _ => format!("{verbatim} ({kind}{quantifier})"),
         }
     }
 }
